@@ -11,6 +11,7 @@ import (
 	"sync"
 	"time"
 
+	"github.com/ThreeDotsLabs/watermill/internal/verifhook"
 	"github.com/ThreeDotsLabs/watermill/message"
 	"github.com/pkg/errors"
 )
@@ -162,6 +163,7 @@ func (kr *mapExpiringKeyRepository) IsDuplicate(
 	ctx context.Context,
 	key string,
 ) (bool, error) {
+	verifhook.Point("dedup.isduplicate.enter", key)
 	kr.mu.Lock()
 	_, alreadySeen := kr.tags[key]
 	if alreadySeen {
